@@ -2,9 +2,9 @@ package checks
 
 import (
 	"fmt"
-	"os"
 	"go/constant"
 	"go/types"
+	"os"
 	"strings"
 
 	"fv/internal/core"
